@@ -137,6 +137,38 @@ def run_seeded(sd: Seeded, prop: str, src_pkg: Path) -> dict:
         shutil.rmtree(tmp, ignore_errors=True)
 
 
+def load_refactors() -> list[tuple[str, str, Path]]:
+    """(id, property it was written for, diff) of the behaviour-preserving changes kept under /verif/refactors."""
+    out = []
+    d = VERIF / "refactors"
+    if d.is_dir():
+        for p in sorted(d.glob("C*-R*.diff")):
+            out.append((p.stem, p.stem.split("-")[0], p))
+    return out
+
+
+def run_refactor(rid: str, prop: str, diff: Path, src_pkg: Path) -> dict:
+    """A behaviour-preserving change written by an independent sub-agent: the check must stay silent (exit 0)."""
+    tmp = Path(tempfile.mkdtemp(prefix="sa-refac-"))
+    try:
+        shutil.copytree(src_pkg, tmp / PKG, ignore=shutil.ignore_patterns("__pycache__", "*.so", "*.pyc"))
+        p = subprocess.run(["git", "apply", "--whitespace=nowarn", str(diff)], cwd=str(tmp), capture_output=True, text=True)
+        if p.returncode != 0:
+            return {"vid": f"refactor:{rid}", "prop": prop, "status": "skipped", "why": "diff no longer applies"}
+        env = dict(os.environ)
+        env["VERIF_REPO"] = str(tmp)
+        env["VERIF_EVIDENCE_DIR"] = str(tmp / "evidence")
+        env.pop("VERIF_TIER", None)
+        q = subprocess.run([sys.executable, "-m", "sa", "check", prop, "--tier", "quick"], cwd=str(VERIF), env=env, capture_output=True, text=True, timeout=300)
+        out = q.stdout + q.stderr
+        return {
+            "vid": f"refactor:{rid}", "prop": prop, "expect": "silent", "rc": q.returncode, "status": "ok" if q.returncode == 0 else "FALSE-ALARM",
+            "report": [ln for ln in out.splitlines() if "VIOLATION" in ln or "ANALYSIS-ERROR" in ln][:3],
+        }
+    finally:
+        shutil.rmtree(tmp, ignore_errors=True)
+
+
 def selftest(props: list[str] | None = None, jobs: int = 16, only: str | None = None, seeded: bool = True) -> tuple[list[dict], int]:
     vs = [v for v in load_variants() if (not props or v.prop in props) and (not only or only in v.vid)]
     src_pkg = repo_root() / PKG
@@ -147,9 +179,16 @@ def selftest(props: list[str] | None = None, jobs: int = 16, only: str | None = 
                 if (not props or p in props) and (not only or only in sd.sid):
                     jobs_.append(("s", (sd, p)))
 
+    if seeded:
+        for rid, rprop, diff in load_refactors():
+            if (not props or rprop in props) and (not only or only in rid):
+                jobs_.append(("r", (rid, rprop, diff)))
+
     def one(j):
         kind, x = j
         try:
+            if kind == "r":
+                return run_refactor(x[0], x[1], x[2], src_pkg)
             return run_variant(x, src_pkg) if kind == "v" else run_seeded(x[0], x[1], src_pkg)
         except subprocess.TimeoutExpired:
             return {"vid": getattr(x, "vid", str(x)), "status": "broken-variant", "why": "timeout"}
